@@ -56,4 +56,12 @@ TEXT = {
         "note": COMMON_NOTE + "DHCPv6 half: the decoder-image-in-domain step is not yet a theorem for all option types; labelled partial.",
         "technique": "Coq proof (v4 fixpoint for all accepted inputs; v6 on the encoder's domain) + direct fixpoint oracle + differential correspondence",
     },
+    "C17": {
+        "text": "Per accessor kind, theorems for ALL raw values (any length): the accessor returns a value iff the raw value has the RFC layout for its type, and then exactly "
+                "that reading (addresses, address lists, durations, 16/8-bit values, RFC 3004 user classes with the documented fallback, RFC 3442 routes, VIVC, relay-agent "
+                "sub-options via the option grammar, search domains via C19); set/get lemmas for the constructors. All 29 accessor methods are compared with the model on "
+                "every length 0..64 x 4+ fills.",
+        "note": COMMON_NOTE,
+        "technique": "Coq proof (iff characterisations of each value type) + differential correspondence of all accessor methods",
+    },
 }
